@@ -519,6 +519,11 @@ JOBS = {
                             env={"GRAPH": "art:g_kb2_mixedq", "ALPHA": "alpha:g_kb2_mixedq", "COMP": "kb2", "FGRAPH": "art:g_frame", "SGRAPH": "art:g_set2", "EGRAPH": "art:g_event", "WORDS": "art:t_words"}),
     "conf_kb1_mixedq": dict(kind="tlc", module="Conf_Keyboard", cfg="Conf_Keyboard.cfg", workers=8, heap="12g",
                             env={"GRAPH": "art:g_kb1_mixedq", "ALPHA": "alpha:g_kb1_mixedq", "COMP": "kb1", "FGRAPH": "art:g_frame", "SGRAPH": "art:g_set1", "EGRAPH": "art:g_event", "WORDS": "art:t_words"}),
+    # the whole event alphabet through Keyboard::process_keyevent against the real EventDecoder automaton
+    "conf_kb2_events_wiring": dict(kind="tlc", module="Conf_Keyboard", cfg="Conf_Keyboard.cfg", workers=8, heap="8g",
+                                   env={"GRAPH": "art:g_kb2_events", "ALPHA": "alpha:g_kb2_events", "COMP": "kb2",
+                                        "FGRAPH": "art:g_frame", "SGRAPH": "art:g_set2", "EGRAPH": "art:g_event",
+                                        "WORDS": "art:t_words"}),
     "conf_kb2_mixed": dict(kind="tlc", module="Conf_Keyboard", cfg="Conf_Keyboard.cfg", workers=12, heap="28g", timeout=3600,
                            env={"GRAPH": "art:g_kb2_mixed", "ALPHA": "alpha:g_kb2_mixed", "COMP": "kb2", "FGRAPH": "art:g_frame", "SGRAPH": "art:g_set2", "EGRAPH": "art:g_event", "WORDS": "art:t_words"}),
     "trace_kb2": dict(kind="tlc", module="Trace_Keyboard", cfg="Trace_Keyboard.cfg", workers=1, cont=False,
@@ -610,9 +615,9 @@ PROPS = {
     "C13": dict(quick=["props_scan", "mc_world", "world_q"], thorough=["props_scan", "mc_world_full", "world_t"],
                 graphs=["g_set1", "g_set2"]),
     "C19": dict(quick=["mc_set1", "mc_set2", "props_scan"], graphs=["g_set1", "g_set2"]),
-    "C18": dict(quick=["mc_keyboard_set2", "proof_keyboard", "conf_kb2_mixedq", "conf_kb1_mixedq", "trace_kb2", "trace_kb1",
+    "C18": dict(quick=["mc_keyboard_set2", "proof_keyboard", "conf_kb2_mixedq", "conf_kb1_mixedq", "conf_kb2_events_wiring", "trace_kb2", "trace_kb1",
                        "conf_iso_kb2_q", "conf_iso_kb1_q"],
-                thorough=["mc_keyboard_set2", "mc_keyboard_set1", "mc_keyboard_set2_full", "proof_keyboard", "conf_kb2_bits", "conf_kb1_bits",
+                thorough=["mc_keyboard_set2", "mc_keyboard_set1", "mc_keyboard_set2_full", "proof_keyboard", "conf_kb2_bits", "conf_kb1_bits", "conf_kb2_events_wiring",
                           "conf_kb2_mixedq", "conf_kb1_mixedq", "conf_kb2_mixed", "trace_kb2_long", "trace_kb1_long",
                           "conf_iso_kb2_t", "conf_iso_kb1_t"],
                 graphs=["g_kb2_mixedq", "g_kb1_mixedq"],
@@ -757,6 +762,8 @@ def write_replay(ctx, pid, n, rec, jobname):
         gname = "g_kb2_events"
     if rec.get("kind") in ("kb-io", "kb-getter"):
         gname = rec.get("graph") or ("g_%s_mixedq" % comp)
+        if jobname == "conf_kb2_events_wiring":
+            gname = "g_kb2_events"
     gname = rec.get("graph", gname)
     if "access" in rec and gname in ARTEFACTS:
         try:
